@@ -1531,7 +1531,18 @@ func c03PullAlone(c *fw.Ctx, i int, pk string) {
 	}
 	// workload delay, not a verdict: long enough for at least two of lal's 1 s housekeeping ticks
 	from := e.s.Notify.Len()
-	time.Sleep(2500 * time.Millisecond)
+	time.Sleep(1200 * time.Millisecond)
+	// a foreign start_relay_pull for the same name (other url, retry budget 0, stop as soon as nobody
+	// watches) arrives meanwhile: it is refused - and a refusal changes nothing about the attempt
+	{
+		b, _ := json.Marshal(map[string]interface{}{"url": "rtmp://127.0.0.1:1/live/nowhere", "stream_name": e.name, "pull_retry_num": 0, "auto_stop_pull_after_no_out_ms": 0, "pull_timeout_ms": 1000})
+		_, resp, _ := srv.HttpPostJson(e.s.ApiAddr(), "/api/ctrl/start_relay_pull", string(b), 3*time.Second)
+		e.logf("second start_relay_pull while the attempt is in flight → %s", trunc(string(resp), 120))
+		if strings.Contains(string(resp), `"error_code":0`) {
+			c.Violate("api-accepted-while-occupied/pull", fmt.Sprintf("a second start_relay_pull reported success while an attempt for the stream was in flight\n%s\n%s", e.desc, e.trace()), nil)
+		}
+	}
+	time.Sleep(1300 * time.Millisecond)
 	e.logf("pull attempt was in flight, alone on the name, for 2.5 s")
 	var err error
 	e.witR, err = ref.StartRtmpSubscriber(e.s.RtmpAddr(), "live", e.name, 3*time.Second)
@@ -1561,6 +1572,29 @@ func c03PullAlone(c *fw.Ctx, i int, pk string) {
 	p.burst()
 	e.checkDelivered(p, all, "pull attached after being in flight alone across ticks")
 	e.statCheck(p, "pull attached after being in flight alone across ticks")
+	// two more ticks: the attached pull is still the input (the refused call's "stop when nobody
+	// watches" must not have become its setting - the witnesses only just re-attached)
+	e.witR.Close()
+	e.witF.Close()
+	time.Sleep(2300 * time.Millisecond)
+	if ev, stopped := e.s.Notify.Wait(0, from, func(ev srv.Event) bool { return ev.Kind == "pull_stop" && ev.SessionId == p.sid }); stopped {
+		c.Violate("disturbed/pull/stopped-by-refused-call", fmt.Sprintf("the attached relay pull %s was stopped although nobody stopped it: a start_relay_pull that had been answered with an error while it was connecting left its auto-stop setting behind\n%s\n%s", ev.SessionId, e.desc, e.trace()), nil)
+		e.finish(all)
+		return
+	}
+	{
+		var err error
+		e.witR, err = ref.StartRtmpSubscriber(e.s.RtmpAddr(), "live", e.name, 3*time.Second)
+		if err == nil {
+			e.witF, err = srv.StartHttpSub(e.s.HttpAddr(), "/live/"+e.name+".flv", "flv", 3*time.Second)
+		}
+		if err != nil {
+			c.Inconclusive("witnesses could not re-attach: %v", err)
+			e.finish(all)
+			return
+		}
+		time.Sleep(200 * time.Millisecond)
+	}
 	e.occupied = true
 	h := e.newActor(pk)
 	all = append(all, h)
@@ -1855,6 +1889,75 @@ func c03AuthRefusals(c *fw.Ctx, i int) {
 	}
 }
 
+
+// scenario 7: an accepted RTMP publisher sends a second publish command naming ANOTHER stream. lal
+// refuses that and closes the connection - the departure belongs to the stream the session was
+// accepted on: its pub_stop is notified, the stat API forgets it, the next publisher of the name is
+// admitted, and nothing ever shows up under the other name.
+func c03PublishTwiceOtherName(c *fw.Ctx, i int) {
+	e := c03Start(c, i)
+	if e == nil {
+		return
+	}
+	defer e.stop()
+	e.desc = "an accepted rtmp publisher sends a second publish naming another stream"
+	c.Describe("%s", e.desc)
+	c.Cell("publish-twice-other-name")
+	h := e.newActor("rtmp")
+	all := []*c03Actor{h}
+	h.acquire(false)
+	if !(h.decided && h.accepted) {
+		c.Inconclusive("publisher not accepted\n%s", e.trace())
+		e.finish(all)
+		return
+	}
+	h.burst()
+	e.checkDelivered(h, all, "publisher accepted")
+	other := e.name + "x"
+	call := e.now()
+	h.rc.SendCommand(3, h.msid, ref.AmfStr("publish"), ref.AmfNum(9), ref.AmfNul(), ref.AmfStr(other), ref.AmfStr("live"))
+	e.logf("%s sent a second publish for %q", h, other)
+	closed := false
+	select {
+	case <-h.rdDone:
+		closed = true
+	case <-time.After(3 * time.Second):
+	}
+	c.Eval(1)
+	if !closed {
+		// lal may also just ignore the command: then the session simply goes on
+		h.burst()
+		e.checkDelivered(h, all, "after a second publish command that lal ignored")
+		h.release("close")
+		e.finish(all)
+		return
+	}
+	_, ok := e.s.Notify.Wait(4*time.Second, h.from, func(ev srv.Event) bool { return ev.Kind == "pub_stop" && ev.SessionId == h.sid })
+	h.released = true
+	if ok {
+		e.record(h.id, c03Op{false, h.id}, call, true, e.now())
+		e.logf("%s: connection closed by lal, pub_stop notified", h)
+	} else {
+		c.Violate("notify-pairing/pub/second-publish", fmt.Sprintf("lal closed the publisher's connection after its second publish command but no pub_stop was notified for its session %s on %s\n%s\n%s", h.sid, e.name, e.desc, e.trace()), nil)
+	}
+	e.statCheck(nil, "after the publisher's connection was closed")
+	if st := e.s.Lal.StatGroup(other); st != nil && st.StatPub.SessionId != "" {
+		c.Violate("stat-input", fmt.Sprintf("the stat API lists a publisher (%s) on %q, a name nobody was accepted on\n%s", st.StatPub.SessionId, other, e.trace()), nil)
+	}
+	x := e.newActor("rtmp")
+	all = append(all, x)
+	x.acquire(false)
+	if x.decided && !x.accepted && ok {
+		c.Violate("refused-while-free/rtmp", fmt.Sprintf("after the publisher had gone (pub_stop notified) the next publisher of %s was refused\n%s\n%s", e.name, e.desc, e.trace()), nil)
+	}
+	if x.accepted {
+		x.burst()
+		e.checkDelivered(x, all, "next publisher after the closed one")
+		x.release("close")
+	}
+	e.finish(all)
+}
+
 // scenario 4: concurrent arrivals on one name, several rounds.
 func c03Race(c *fw.Ctx, i int) {
 	e := c03Start(c, i)
@@ -1947,7 +2050,7 @@ func init() {
 	for _, h := range []string{"rtmp", "rtsp", "customize", "pull"} {
 		cat = append(cat, sc{"subs", h, ""})
 	}
-	cat = append(cat, sc{"auth-refusals", "", ""})
+	cat = append(cat, sc{"auth-refusals", "", ""}, sc{"publish-twice-other-name", "", ""})
 	for _, m := range []string{"announce-twice", "announce-other-stream", "announce-then-describe", "describe-twice"} {
 		cat = append(cat, sc{"rtsprepeat", m, ""})
 	}
@@ -1982,6 +2085,8 @@ func init() {
 					c03RtspRepeat(c, i, x.a)
 				case "auth-refusals":
 					c03AuthRefusals(c, i)
+				case "publish-twice-other-name":
+					c03PublishTwiceOtherName(c, i)
 				default:
 					c03ForeignSubs(c, i, x.a)
 				}
